@@ -53,6 +53,12 @@ CLAIMS["C08"] = ("must-reach of the digest update after graph.add in the admissi
 CLAIMS["C18"] = ("must-pass-through on did:web Resolve/DIDToURL and the deactivation gates + EFFECT (transitive-callee package classification) for did:jwk/did:key purity and local-first resolution + constant/argument checks (https literal, exact id equality, chain order, chain continues only on ErrNotFound)",
   "Static decision that did:web documents are fetched only over https from the host the DID encodes and accepted only with an identical id, that did:jwk/did:key resolution is effect-free and id-bound, that managed DIDs resolve locally first without network reachability, and that deactivated DIDs resolve only when allowed. Exhaustive over the current source.",
   "Trusts go/ssa, net/url parsing; the DID↔URL round-trip law and redirects are not decided.")
+CLAIMS["C20"] = ("per-refusal GATE/REFUSE under the strict-flag value set (loads of strict-mode named fields/params/globals) + flag-wiring dependence check (every strict-mode slot that is read is assigned from the flag) + argument/constant checks (https-only strict URL parse, default true, JSON-LD negation, sticky secret-flag error) + ownership of raw HTTP clients",
+  "Static decision that each documented strict-mode refusal exists, is controlled by the flag and its own option, that the flag actually reaches every component that consults it (two dead flags were found and repaired), that strict is the default, that outbound HTTP uses the strict client, and that moved keys / command-line secrets are refused regardless of the flag. Exhaustive over the current source.",
+  "Trusts go/ssa; koanf precedence and completeness of the documented list are not decided.")
+CLAIMS["C03"] = ("SURFACE (typed API inventory: no exported element outside the backends exposes a private-key type) + OWN (every interface conversion / field selection / serialiser call on a private-key value is in the owner table) + GATE on SignJWS's private-JWK refusal and on the key-name validator (pattern + dot-segment refusal, wrapper methods validate before delegating, all configured backends wrapped, backends never percent-decode names, UUID names for new keys) + ORDER (audit.Log dominates each key operation)",
+  "Static decision of the structural conditions that keep private key material inside the key store and key names inside the key namespace. Exhaustive over the current source.",
+  "Trusts go/ssa and go/types; that signatures verify with the published key and the run-time contents of logs/SQL rows are not decided.")
 PENDING = {}
 
 def main():
